@@ -18,6 +18,22 @@ func TestC19(t *testing.T) {
 				c.Extra = map[string]any{}
 			}
 			c.Extra["via_yaml"] = rapid.Bool().Draw(rt, "via_yaml")
+			if c.Extra["via_yaml"].(bool) && mut == nil {
+				// plain scalars whose YAML type is not the field's type: the schema has to see their text
+				for _, f := range c.Main.Input {
+					if _, given := c.InputDoc[f.Name]; !given || f.Min != nil {
+						continue
+					}
+					switch {
+					case f.Type == "string" && rapid.IntRange(0, 2).Draw(rt, "odd."+f.Name) == 0:
+						c.InputDoc[f.Name] = vcase.RawScalar(rapid.SampledFrom([]string{"1.10", "010", "0x10", "true", "~", "2001-12-14", "1e3", "null", "yes", "0o17", "-.5", "+12"}).Draw(rt, "odd."+f.Name+".text"))
+						c.Labels = append(c.Labels, "plain-scalar-with-another-yaml-type")
+					case f.Type == "int" && rapid.IntRange(0, 3).Draw(rt, "odd."+f.Name) == 0:
+						c.InputDoc[f.Name] = vcase.RawScalar(rapid.SampledFrom([]string{"010", "007", "-08", "0"}).Draw(rt, "odd."+f.Name+".text"))
+						c.Labels = append(c.Labels, "plain-scalar-with-another-yaml-type")
+					}
+				}
+			}
 			if mut != nil {
 				c.Extra["mutation"] = map[string]any{"kind": mut.Kind, "field": mut.Field}
 			}
